@@ -70,6 +70,10 @@ def drive(ctx):
               "59999996", "499999951"):
         for head in ("PT0", "PT59", "P1DT23H59M59", "PT1"):
             rf.append(("valid", "%s%s%sS" % (head, ".,"[len(f) % 2], f)))
+    for des, tp in (("D", False), ("H", True), ("M", True)):          # tenths of days, hours and minutes
+        for whole in ("0", "3", "12"):
+            for f in "0123456789":
+                rf.append(("valid", "%s%s%s.%s%s" % ("P", "T" if tp else "", whole, f, des)))
     rf = ctx.mine(rf)
     # the property's ill-formed classes
     for _ in range(20 if q else 200):
@@ -84,6 +88,16 @@ def drive(ctx):
         work.append(("frac-year", "P%s%s%sY" % (rnd.choice(VALUES[:8]), rnd.choice(".,"), rnd.choice(FRACS))))
         work.append(("frac-month", "P%s%s%sM" % (rnd.choice(VALUES[:8]), rnd.choice(".,"), rnd.choice(FRACS))))
         work.append(("frac-year", "P1%s5Y2M" % rnd.choice(".,")))
+    # every order of two and three date designators / time designators with non-zero and with zero values
+    import itertools as _it
+
+    ooo = []
+    for vals in (("1", "2", "3"), ("0", "1", "2"), ("3", "0", "1"), ("12", "7", "0")):
+        for (grp, pre) in (("YMD", "P"), ("HMS", "PT")):
+            for r2 in (2, 3):
+                for perm in _it.permutations(grp, r2):
+                    if list(perm) != sorted(perm, key=grp.index):
+                        ooo.append(("out-of-order", pre + "".join(v + d for v, d in zip(vals, perm))))
     # numbers too large to represent (more than 999999999 days; counts that do not fit 32 / 64 bits)
     for big in ("99999999999", "4294967297", "18446744073709551617", "1000000000", "999999999999999999999"):
         for tmpl in ("P%sD", "P%sW", "PT%sH", "PT%sM", "PT%sS", "P%sY", "P%sM", "P1DT%sS", "P%sDT1S"):
@@ -91,7 +105,7 @@ def drive(ctx):
     work = ctx.mine(sorted(set(work)))
     if q:
         work = pick(rnd, work, 900)
-    for (cls, text) in work + rf:
+    for (cls, text) in work + rf + ctx.mine(ooo):
         ctx.emit("dur_parse", {"text": cps(text), "cls": cls})
     # intervals
     starts = ["2007-03-01T13:00:00Z", "2008-05-11T15:30:00+02:00", "2024-01-31T00:00:00", "2023-12-31T23:59:59.999999Z",
